@@ -30,6 +30,8 @@ def run(ctx, rep):
     layout(prog, rep)
     type_id_clause(prog, rep)
     key_bijection(prog, rep)
+    registry_rebuilt(prog, rep)
+    boundaries_admitted(prog, rep)
 
 
 def _is_type_ex(prog, e):
@@ -245,3 +247,74 @@ def key_bijection(prog, rep):
         rep.ob(rule, "key(type(k), id(k)) == k", k2 == kk, "all 32 key bits survive", prog.bodies[F + "key"].loc())
     except Unsupported as e:
         rep.ob(rule, "analysable", False, "bit-level evaluation refused: %s" % e, None)
+
+
+def registry_rebuilt(prog, rep):
+    """R1b: Snap::build_from_raw rebuilds the UUID registry from scratch: extended_types.clear() dominates every insert
+    (a Snap object that is read into twice must not keep the previous registry)"""
+    rule = "R1b-registry-rebuilt"
+    b = prog.one(S + "Snap::build_from_raw")
+    ir = IR(b)
+    clears = [bi for bi, t in b.calls() if (t.get("callee") or "").endswith("BTreeMap::clear") and "extended_types" in show(ir.term_operand(bi, t["args"][0]))]
+    ins = [(bi, t) for bi, t in b.calls() if (t.get("callee") or "").endswith("BTreeMap::insert") and "extended_types" in show(ir.term_operand(bi, t["args"][0]))]
+    rep.floor(rule, len(ins), 1, "extended_types.insert in build_from_raw")
+    for bi, t in ins:
+        ok = any(b.dominates(c, bi) for c in clears)
+        rep.ob(rule, "insert after clear", ok, "the registry is emptied before it is rebuilt from the registry items" if ok else
+               "build_from_raw inserts into extended_types without clearing it first: re-reading into a used Snap keeps stale UUID types", b.loc(t.get("ln")))
+
+
+def boundaries_admitted(prog, rep):
+    """R2b: two guards that must be tight for the round trip.  (a) read_from_ints accepts an item of length 0 (the writer
+    emits one: consecutive offsets differ by exactly one word): at the add_item call the dominating guards imply
+    start <= end for the data range but do not imply start < end.  (b) Snap::recycle counts the first id the builder
+    hands out (OFFSET_EXTENDED_TYPE_ID) as used: at the store next_type_id = id + 1 the guards imply id >= OFFSET but not
+    id > OFFSET."""
+    from ..guards import Reasoner, Lin
+    rule = "R2b-boundaries-admitted"
+    b = prog.one(S + "RawSnap::read_from_ints")
+    ir = IR(b)
+    rs = Reasoner(ir, prog)
+    n = 0
+    for bi, t in b.calls():
+        if (t.get("callee") or "") != S + "RawSnap::add_item":
+            continue
+        e = ir.call_expr(bi, t)
+        rng = None
+        for x in walk(e[2][3]):
+            if isinstance(x, tuple) and x and x[0] == "agg" and (x[2] or "").endswith("ops::Range") and len(x[4]) == 2:
+                rng = dict(x[4])
+        if rng is None:
+            continue
+        n += 1
+        st, en = rs.lin(rng.get("start")), rs.lin(rng.get("end"))
+        facts, nes = rs.facts_at(bi)
+        nonneg = st is not None and en is not None and rs.prove(st.sub(en), facts)
+        forced = st is not None and en is not None and rs.prove(st.sub(en).add(Lin.const(1)), facts)
+        rep.ob(rule, "read_from_ints admits empty items", nonneg and not forced,
+               "the guards give start <= end for item_data[start..end] and leave start == end possible" if nonneg and not forced else
+               ("the guards force end > start: an item without payload, which the writer emits, is rejected" if forced else
+                "start <= end does not follow from the guards"), b.loc(t.get("ln")))
+    rep.floor(rule, n, 1, "add_item(.., &item_data[a..b]) in read_from_ints")
+    r = prog.one(S + "Snap::recycle")
+    rir = IR(r)
+    rrs = Reasoner(rir, prog)
+    off = prog.constv(F + "OFFSET_EXTENDED_TYPE_ID")
+    m = 0
+    for bi in sorted(r.live):
+        for si, st_ in enumerate(r.blocks[bi]["st"]):
+            if st_["k"] != "assign" or st_["p"].get("pr") or st_["r"]["k"] not in ("bin", "use"):
+                continue
+            e = rir.rvalue(st_["r"], (bi, si))
+            if not (e[0] == "bin" and e[1] == "Add" and e[3][0] == "c" and e[3][1] == 1 and "key_to_id" in show(e[2])):
+                continue
+            m += 1
+            idl = rrs.lin(e[2])
+            facts, nes = rrs.facts_at(bi)
+            ge = idl is not None and rrs.prove(Lin.const(off).sub(idl), facts)
+            gt = idl is not None and rrs.prove(Lin.const(off + 1).sub(idl), facts)
+            rep.ob(rule, "recycle counts id OFFSET_EXTENDED_TYPE_ID", ge and not gt,
+                   "next_type_id = id + 1 for every registry id >= %#x" % off if ge and not gt else
+                   ("registry id %#x (the first one the builder hands out) is skipped: the recycled builder hands it out again" % off if gt else
+                    "the store is not guarded by id >= OFFSET_EXTENDED_TYPE_ID"), r.loc(st_.get("ln")))
+    rep.floor(rule, m, 1, "next_type_id = id + 1 in Snap::recycle")
